@@ -279,11 +279,75 @@ V('state-rng-in-encode', ['C20'], 'R-STATE', SW, ("        quotient = bit_to_num
 V('state-global-counter', ['C20'], 'R-STATE', OP, ("def calculus_addition(number, base):", "CALLS = 0\n\n\ndef calculus_addition(number, base):"), ("    number, base = list(number), list(base.zfill(len(number)))\n\n    result = [0 for _ in range(len(number) + 1)]", "    global CALLS\n    CALLS += 1\n    number, base = list(number), list(base.zfill(len(number)))\n\n    result = [0 for _ in range(len(number) + 1)]"))
 V('state-clock-in-result', ['C20'], 'R-STATE', OP, ("def bit_to_number(bit_array, is_string=True, verbose=False):", "def bit_to_number(bit_array, is_string=True, verbose=False, started=None):"), ("    monitor = Monitor()\n    if is_string:\n        decimal_number = \"0\"", "    monitor = Monitor()\n    started = datetime.now() if started is None else started\n    if is_string:\n        decimal_number = \"0\""))
 V('verb-assignment-in-region', ['C20'], 'R-VERB', SW, ("            if verbose:\n                monitor(location + 1, len(binary_message))", "            if verbose:\n                location += 0\n                monitor(location + 1, len(binary_message))"))
-V('verb-state-change-in-region', ['C20', 'C01'], 'R-VERB|R-WALK|R-DEG', SW, ("            if verbose:\n                monitor(location + 1, len(dna_sequence))\n\n        for location, (out_degree, number)", "            if verbose:\n                monitor(location + 1, len(dna_sequence))\n                vertex_index = int(vertex_index)\n\n        for location, (out_degree, number)"))
+V('verb-state-change-in-region', ['C20'], 'R-VERB', SW, ("            if verbose:\n                monitor(location + 1, len(dna_sequence))\n\n        for location, (out_degree, number)", "            if verbose:\n                monitor(location + 1, len(dna_sequence))\n                vertex_index = int(vertex_index)\n\n        for location, (out_degree, number)"))
 V('verb-monitor-outside', ['C20'], 'R-VERB', SW, ("        if verbose:\n            monitor(vertex_index + 1, len(vertices), extra={\"valid\": sum(vertices[: vertex_index + 1])})", "        monitor(vertex_index + 1, len(vertices), extra={\"valid\": sum(vertices[: vertex_index + 1])})"))
 V('verb-numpy-int-to-dna', ['C20'], 'R-TYPED', SW, ("        print(\"Remove arc \" + number_to_dna(int(former), dna_length=observed_length)", "        print(\"Remove arc \" + number_to_dna(former, dna_length=observed_length)"))
 V('verb-result-depends', ['C20'], 'R-VERB', GR, ("    if verbose:\n        print(\"Remove useless vertex, the out-degree of witch less than \" + str(threshold) + \".\")", "    if verbose:\n        print(\"Remove useless vertex, the out-degree of witch less than \" + str(threshold) + \".\")\n        threshold = int(threshold)"))
 V('verb-passed-as-other-flag', ['C20'], 'R-VERB', SW, ("        quotient = bit_to_number(binary_message, verbose=verbose)", "        quotient = bit_to_number(binary_message, is_string=not verbose or True, verbose=verbose)"))
+
+# ---------------------------------------------------------------- R-VTFORM
+VT_VAL = "vt_value = sum(where((values[1:] - values[:-1]) > 0)[0]) % (len(nucleotides) ** (vt_length - 1))"
+V('vt-ge0', ['C07'], 'R-VTFORM', SW, (VT_VAL, VT_VAL.replace(") > 0)[0])", ") >= 0)[0])")))
+V('vt-lt0', ['C07'], 'R-VTFORM', SW, (VT_VAL, VT_VAL.replace(") > 0)[0])", ") < 0)[0])")))
+V('vt-swapped-slices', ['C07'], 'R-VTFORM', SW, (VT_VAL, VT_VAL.replace("values[1:] - values[:-1]", "values[:-1] - values[1:]")))
+V('vt-exponent-n', ['C07'], 'R-VTFORM', SW, (VT_VAL, VT_VAL.replace("** (vt_length - 1))", "** vt_length)")))
+V('vt-width-n', ['C07'], 'R-VTFORM', SW, ("number_to_dna(decimal_number=int(vt_value), dna_length=vt_length - 1)", "number_to_dna(decimal_number=int(vt_value), dna_length=vt_length)"))
+V('vt-positions-plus1', ['C07'], 'R-VTFORM', SW, (VT_VAL, VT_VAL.replace("> 0)[0])", "> 0)[0] + 1)")))
+V('vt-flag-mod3', ['C07'], 'R-VTFORM', SW, ("vt_flag = sum(values) % len(nucleotides)", "vt_flag = sum(values) % (len(nucleotides) - 1)"))
+V('vt-flag-first-symbol', ['C07'], 'R-VTFORM', SW, ("vt_flag = sum(values) % len(nucleotides)", "vt_flag = sum(values[:1]) % len(nucleotides)"))
+V('vt-no-modulus', ['C07'], 'R-VTFORM', SW, (VT_VAL, "vt_value = sum(where((values[1:] - values[:-1]) > 0)[0])"))
+V('vt-offset-slices', ['C07'], 'R-VTFORM', SW, (VT_VAL, VT_VAL.replace("values[1:] - values[:-1]", "values[2:] - values[:-2]")))
+
+# ---------------------------------------------------------------- R-FILTER / GC ordering
+V('filter-check-reads-full', ['C12', 'C02'], 'R-FILTER', BF, ("                if nucleotide * (1 + self.max_homopolymer_runs) in observed_dna_sequence:", "                if nucleotide * (1 + self.max_homopolymer_runs) in dna_sequence:"))
+V('filter-rc-not-reversed', ['C12'], 'R-FILTER', BF, ("reverse_complement = reverse_complement[::-1].upper()", "reverse_complement = reverse_complement.upper()"))
+V('filter-complement-map', ['C12'], 'R-FILTER', BF, ('.replace("G", "c")', '.replace("G", "g")'))
+V('filter-run-r', ['C12', 'C02'], 'R-FILTER', BF, ("nucleotide * (1 + self.max_homopolymer_runs) in", "nucleotide * self.max_homopolymer_runs in"))
+V('filter-last-window-skipped', ['C12', 'C02'], 'R-FILTER', BF, ("range(len(observed_dna_sequence) - self.observed_length + 1)", "range(len(observed_dna_sequence) - self.observed_length)"))
+V('filter-window-short', ['C12', 'C02'], 'R-FILTER', BF, ("observed_dna_sequence[index: index + self.observed_length]", "observed_dna_sequence[index: index + self.observed_length - 1]"))
+V('filter-at-bound-lo', ['C12'], 'R-FILTER|R-ORD', BF, ("if at_count > (1 - self.gc_range[0]) * self.observed_length:", "if at_count > self.gc_range[0] * self.observed_length:"))
+V('filter-gc-upper-ge', ['C12', 'C02'], 'R-ORD', BF, ("                    if gc_count > self.gc_range[1] * self.observed_length:\n                        return False\n                    if gc_count < ", "                    if gc_count >= self.gc_range[1] * self.observed_length:\n                        return False\n                    if gc_count < "))
+V('filter-gc-lower-le', ['C12', 'C02'], 'R-ORD', BF, ("                    if gc_count < self.gc_range[0] * self.observed_length:", "                    if gc_count <= self.gc_range[0] * self.observed_length:"))
+V('filter-short-upper-ge', ['C12'], 'R-ORD', BF, ("                if gc_count > self.gc_range[1] * self.observed_length:\n                    return False\n                at_count", "                if gc_count >= self.gc_range[1] * self.observed_length:\n                    return False\n                at_count"))
+V('filter-last-k-plus1', ['C12', 'C02'], 'R-FILTER', BF, ("observed_dna_sequence = dna_sequence[-self.observed_length:]", "observed_dna_sequence = dna_sequence[-self.observed_length - 1:]"))
+V('filter-no-char-test', ['C12'], 'R-FILTER', BF, ("        for nucleotide in observed_dna_sequence:\n            if nucleotide not in \"ACGT\":\n                return False\n", ""))
+V('filter-rc-dropped', ['C12'], 'R-FILTER', BF, ("                if reverse_complement in observed_dna_sequence:\n                    return False\n", ""))
+V('filter-gc-counts-c-only', ['C12', 'C02'], 'R-FILTER', BF, ('gc_count = sub_dna_sequence.count("C") + sub_dna_sequence.count("G")', 'gc_count = sub_dna_sequence.count("C") + sub_dna_sequence.count("C")'))
+
+# ---------------------------------------------------------------- R-CONV
+V('conv-bit-radix3', ['C16', 'C07'], 'R-CONV', OP, ('decimal_number = calculus_multiplication(number=decimal_number, base="2")', 'decimal_number = calculus_multiplication(number=decimal_number, base="3")'))
+V('conv-bit-int-radix', ['C16'], 'R-CONV', OP, ("decimal_number = decimal_number * 2 + a_bit", "decimal_number = decimal_number * 4 + a_bit"))
+V('conv-dna-int-radix', ['C16', 'C13'], 'R-CONV', OP, ("decimal_number = decimal_number * 4 + nucleotide_value", "decimal_number = decimal_number * 2 + nucleotide_value"))
+V('conv-bit-append', ['C16'], 'R-CONV', OP, ("            one_array.insert(0, int(remainder))", "            one_array.append(int(remainder))"))
+V('conv-dna-append', ['C16', 'C13', 'C07'], 'R-CONV', OP, ("            one_array.insert(0, nucleotides[remainder])", "            one_array.append(nucleotides[remainder])"))
+V('conv-dna-pad-right', ['C16', 'C13', 'C07'], 'R-CONV', OP, ("return nucleotides[0] * (dna_length - len(one_array)) + one_array", "return one_array + nucleotides[0] * (dna_length - len(one_array))"))
+V('conv-dna-pad-symbol', ['C16', 'C13', 'C07'], 'R-CONV', OP, ("return nucleotides[0] * (dna_length - len(one_array)) + one_array", "return nucleotides[1] * (dna_length - len(one_array)) + one_array"))
+V('conv-bit-pad-width', ['C16'], 'R-CONV', OP, ("return [0] * (bit_length - len(one_array)) + one_array", "return [0] * (bit_length - len(one_array) - 1) + one_array"))
+V('conv-dna-div-base', ['C16', 'C13', 'C07'], 'R-CONV', OP, ("calculus_division(number=decimal_number, base=str(len(nucleotides)))", "calculus_division(number=decimal_number, base=str(len(nucleotides) - 1))"))
+V('conv-dna-reversed', ['C16', 'C13'], 'R-CONV', OP, ("nucleotide_values = list(map(nucleotides.index, dna_sequence))", "nucleotide_values = list(map(nucleotides.index, dna_sequence[::-1]))"))
+V('conv-dispatch-no-raise', ['C16'], 'R-CONV', OP, ("    else:\n        raise ValueError(\"No such type of decimal number (\" + str(type(decimal_number)) + \")!\")\n\n    if len(one_array) == bit_length:", "\n    if len(one_array) == bit_length:"))
+V('conv-alpha-dna-to-number', ['C16', 'C13'], 'R-ALPHA', OP, ('    nucleotides = "ACGT"\n\n    nucleotide_values', '    nucleotides = "ACTG"\n\n    nucleotide_values'))
+
+# ---------------------------------------------------------------- R-SHUF
+V('shuf-column-twice', ['C18'], 'R-SHUF', SW, ("    shuffles[:, 3] = 3\n", "    shuffles[:, 3] = 2\n"))
+V('shuf-seed-deleted', ['C18'], 'R-SHUF', SW, ("    random.seed(random_seed)\n\n    monitor = Monitor()", "    monitor = Monitor()"))
+V('shuf-seed-after-loop', ['C18'], 'R-SHUF', SW, ("    random.seed(random_seed)\n\n    monitor = Monitor()", "    monitor = Monitor()"), ("    random.seed(None)\n\n    return shuffles", "    random.seed(random_seed)\n    random.seed(None)\n\n    return shuffles"))
+V('shuf-seed-constant', ['C18'], 'R-SHUF', SW, ("    random.seed(random_seed)\n\n    monitor = Monitor()", "    random.seed(2021)\n\n    monitor = Monitor()"))
+V('shuf-sorted-write-back', ['C18'], 'R-SHUF', SW, ("        shuffles[index] = card\n", "        shuffles[index] = sorted(card)\n"))
+V('shuf-rows-short', ['C18'], 'R-SHUF', SW, ("    for index in range(4 ** observed_length):\n        card = shuffles[index]", "    for index in range(4 ** observed_length - 1):\n        card = shuffles[index]"))
+V('shuf-shape', ['C18'], 'R-SHUF', SW, ("shuffles = zeros(shape=(4 ** observed_length, len(nucleotides)), dtype=int)", "shuffles = zeros(shape=(4 ** (observed_length - 1) * 4 + 1, len(nucleotides)), dtype=int)"))
+V('shuf-argument-written', ['C18', 'C20'], 'R-PURE|R-SHUF', SW, ("def create_random_shuffles(observed_length, random_seed=None, verbose=False):", "def create_random_shuffles(observed_length, random_seed=None, verbose=False, into=None):"),
+  ("    random.seed(None)\n\n    return shuffles", "    random.seed(None)\n    if into is not None:\n        into[:] = shuffles\n\n    return shuffles"))
+
+# ---------------------------------------------------------------- R-PAIR / R-REPR
+V('pair-no-cleanup', ['C19'], 'R-PAIR', SW, ("    if len(latter_map[former]) == 0:\n        del latter_map[former]\n", ""))
+V('pair-second-store', ['C19'], 'R-PAIR', SW, ("    accessor[former, latter_value] = -1\n", "    accessor[former, latter_value] = -1\n    accessor[former, former_value] = -1\n"))
+V('pair-deleted-wrong-element', ['C19'], 'R-PAIR', SW, ("del latter_map[former][latter_map[former].index(latter)]", "del latter_map[former][latter_value % len(latter_map[former])]"))
+V('pair-score-column-index', ['C19'], 'R-PAIR', GR, ("            scores[current_index, latter_map[current_index][one] % len(nucleotides)] += score", "            scores[current_index, one] += score"))
+V('pair-score-shape', ['C19'], 'R-PAIR', GR, ("    scores = zeros(shape=(len(nucleotides) ** observed_length, len(nucleotides)), dtype=int)", "    scores = zeros(shape=(len(nucleotides) ** observed_length + 1, len(nucleotides)), dtype=int)"))
+V('pair-store-zero', ['C19'], 'R-PAIR', SW, ("    accessor[former, latter_value] = -1\n", "    accessor[former, latter_value] = 0\n"))
+V('repr-latter-map-other-row', ['C14'], 'R-REPR', GR, ("        vertex = accessor[location]\n        latter_map[location]", "        vertex = accessor[index]\n        latter_map[location]"))
+V('repr-matrix-transposed', ['C14'], 'R-REPR', GR, ("        matrix[vertex_index][vertex[vertex >= 0]] = 1", "        matrix[vertex[vertex >= 0], vertex_index] = 1"))
 
 # ---------------------------------------------------------------- benign twins (every property must stay exit 0)
 ALL = ['C%02d' % i for i in range(1, 21)]
